@@ -146,12 +146,11 @@ def oracle(ctx, g, impl):
                     ctx.fail('shortest_path-is-a-genuine-path', g, {'a': a, 'b': b, 'simulate_root': root, 'got': sp})
                 # length = min over common c of dist(a,c)+dist(b,c)
                 cands = [dist[a][c] + dist[b][c] for c in common]
-                if root and not cyclic:
-                    ra = [dist[a][r] for r in true_roots if r in dist[a]]
-                    rb = [dist[b][r] for r in true_roots if r in dist[b]]
-                    if ra and rb:
-                        cands.append(min(ra) + 1 + min(rb) + 1)
-                if cands and (not root or not cyclic):
+                if root:
+                    # distance to the simulated root = 1 + shortest maximal simple chain
+                    droot = lambda x: min([len(p) for p in chains[x]] or [0]) + 1
+                    cands.append(droot(a) + droot(b))
+                if cands:
                     if len(sp) != min(cands):
                         ctx.fail('shortest_path-length=min-over-common', g,
                                  {'a': a, 'b': b, 'simulate_root': root, 'got': sp, 'expected_len': min(cands)})
